@@ -1,7 +1,7 @@
 (* Entry point of the correspondence files written by harness/cmd/decode:
    one constructor per real Go function driven by the harness.
    Executable definitions only. *)
-From Verif Require Import Lib.Base Decode.GoSlice Decode.Node Decode.ProofEntries Decode.Quote Gen.DecodeConsts.
+From Verif Require Import Lib.Base Decode.GoSlice Decode.Node Decode.ProofEntries Decode.Quote Decode.KeyFormat Decode.Misc Decode.Cbor Gen.DecodeConsts.
 
 Inductive cin : Type :=
 | CDepth (b : bytes)                      (* Depth.UnmarshalBinary *)
@@ -14,7 +14,12 @@ Inductive cin : Type :=
 | CEncKey (k : bytes)                     (* Key.MarshalBinary *)
 | CEncLeaf (l : leaf)                     (* LeafNode.MarshalBinary *)
 | CEncInode (mode : N) (n : inode)        (* 0 MarshalBinary, 1 CompactMarshalBinaryV0, 2 CompactMarshalBinaryV1 *)
-| CQuote (pem_ok trailing : bool) (b : bytes).   (* pcs.Quote.UnmarshalBinaryWithTrailing; pem_ok = observed outcome of the PEM/X.509 chain parse *)
+| CQuote (pem_ok trailing : bool) (b : bytes)   (* pcs.Quote.UnmarshalBinaryWithTrailing; pem_ok = observed outcome of the PEM/X.509 chain parse *)
+| CKeyFormat (prefix : N) (layout : list elem) (nvals : N) (b : bytes)   (* keyformat.KeyFormat.Decode *)
+| CFixed (size kind : N) (b : bytes)      (* X.UnmarshalBinary of a fixed-size helper *)
+| CIasQuote (b : bytes)                   (* ias.Quote.UnmarshalBinary *)
+| CChunk (digest_ok : bool) (evs : list dec_event)    (* checkpoint restoreChunk via Restorer.RestoreChunk *)
+| CCbor (b : bytes).                      (* DecMode.Valid with the options of cbor.go:40-48; cbor.Unmarshal(b, &any) *)
 
 Inductive cout : Type :=
 | ODepth (r : res (N * N))
@@ -25,7 +30,12 @@ Inductive cout : Type :=
 | OWalk (r : res (N * ptr)) (wl : list (bytes * bytes))
 | OOpts (r : res unit)
 | OBytes (b : bytes)
-| OQuote (r : res (quote * N)).
+| OQuote (r : res (quote * N))
+| OKf (r : res (option (list kval)))
+| OFixed (r : res bytes)
+| OIas (r : res (ias_body_t * report))
+| OChunk (r : res unit)
+| OCbor (cls : N) (unmarshal_accepts : bool).
 
 Definition run_case (c : cin) : cout :=
   match c with
@@ -47,6 +57,13 @@ Definition run_case (c : cin) : cout :=
               else if mode =? 1 then inode_compact_marshal_v0 n
               else inode_compact_marshal_v1 n)
   | CQuote pem_ok trailing b => OQuote (fst (run (quote_unmarshal pem_ok trailing b)))
+  | CKeyFormat p l n b => OKf (fst (run (kf_decode p l n b)))
+  | CFixed size kind b => OFixed (fst (run (fixed_unmarshal size kind b)))
+  | CIasQuote b => OIas (fst (run (ias_quote b)))
+  | CChunk d evs =>
+      OChunk (match fst (run (restore_chunk d evs)) with
+              | Ok _ => Ok tt | Err e => Err e | Panic => Panic end)
+  | CCbor b => OCbor (wres_class (cbor_valid b)) false
   end.
 
 Definition pair_eqb {A B} (ea : A -> A -> bool) (eb : B -> B -> bool) (x y : A * B) : bool :=
@@ -64,5 +81,12 @@ Definition cout_eqb (a b : cout) : bool :=
   | OOpts x, OOpts y => res_eqb (fun _ _ => true) x y
   | OBytes x, OBytes y => bytes_eqb x y
   | OQuote x, OQuote y => res_eqb (pair_eqb quote_eqb N.eqb) x y
+  | OKf x, OKf y => res_eqb okvals_eqb x y
+  | OFixed x, OFixed y => res_eqb bytes_eqb x y
+  | OIas x, OIas y => res_eqb (pair_eqb ias_body_eqb report_eqb) x y
+  | OChunk x, OChunk y => res_eqb (fun _ _ => true) x y
+  (* a = model, b = implementation: same validity class, and whatever cbor.Unmarshal accepts
+     the recogniser accepts (the recogniser is a necessary condition) *)
+  | OCbor x _, OCbor y acc => (x =? y) && implb acc (x =? 0)
   | _, _ => false
   end.
